@@ -82,9 +82,109 @@ def run(ctx):
     numeric_gate_and_renderer(ctx)
     no_content_types(ctx)
     required_value(ctx)
+    token_collapse(ctx)
     from . import c04
     c04.check_before_store(ctx)          # attribute values reach their gate: every stored entry has been checked
     c04.check_attribute_gate(ctx)
+
+
+XML_WS = {' ', '\t', '\n', '\r'}
+
+
+def _regex_chars(pattern: str):
+    """the characters a constant regular expression can consume, or None when it uses a character category (\\s matches every Unicode blank)"""
+    import re._parser as sp
+    import re._constants as sc_
+    out = set()
+
+    def walk(items):
+        for op, av in items:
+            if op is sc_.LITERAL:
+                out.add(chr(av))
+            elif op is sc_.IN:
+                for o2, a2 in av:
+                    if o2 is sc_.LITERAL:
+                        out.add(chr(a2))
+                    elif o2 is sc_.RANGE:
+                        out.update(chr(c) for c in range(a2[0], a2[1] + 1))
+                    else:
+                        return False
+            elif op in (sc_.MAX_REPEAT, sc_.MIN_REPEAT):
+                if not walk(av[2]):
+                    return False
+            elif op is sc_.SUBPATTERN:
+                if not walk(av[3]):
+                    return False
+            elif op is sc_.BRANCH:
+                for alt in av[1]:
+                    if not walk(alt):
+                        return False
+            elif op is sc_.AT:
+                continue
+            else:
+                return False
+        return True
+    return out if walk(sp.parse(pattern)) else None
+
+
+def token_collapse(ctx):
+    """the whitespace collapse in front of the pattern check of token-derived types"""
+    sm, res = ctx.sm, ctx.res
+    res.rule('R-TEXT.collapse-set', "the whitespace collapse that precedes the pattern check of the token-derived types treats exactly the four XML whitespace characters "
+             "(#x20 #x9 #xA #xD) as blanks: every split / strip / regular expression in it names its characters and all of them are XML whitespace.  A collapse "
+             "that also removes NBSP, EM SPACE, VT or the C0 separators lets a value pass its pattern although a validator, which collapses only those four, "
+             "rejects the emitted text")
+    f = sm.func(None, 'get_cleaned_token', T.M_CORE)
+    n = 0
+    covered = set()
+    for c in ast.walk(f.node):
+        if not isinstance(c, ast.Call):
+            continue
+        if isinstance(c.func, ast.Attribute) and c.func.attr in ('split', 'rsplit', 'strip', 'lstrip', 'rstrip', 'splitlines', 'expandtabs', 'translate'):
+            n += 1
+            a = c.args[0] if c.args else None
+            v = const_value(a) if a is not None else None
+            if isinstance(a, ast.Name):
+                # a name that only ever stands for constants: the target of loops over literal tuples / a local bound to literals
+                binds = [x for x in ast.walk(f.node) if isinstance(x, ast.For) and isinstance(x.target, ast.Name) and x.target.id == a.id] + \
+                        [x for x in ast.walk(f.node) if isinstance(x, ast.Assign) and any(isinstance(t, ast.Name) and t.id == a.id for t in x.targets)]
+                vals = []
+                for b in binds:
+                    src = b.iter if isinstance(b, ast.For) else ast.Tuple(elts=[b.value])
+                    if isinstance(src, (ast.Tuple, ast.List)) and all(isinstance(const_value(e), str) for e in src.elts):
+                        vals += [const_value(e) for e in src.elts]
+                    else:
+                        vals = None
+                        break
+                if vals and not any(isinstance(x, ast.arg) and x.arg == a.id for x in ast.walk(f.node)):
+                    v = ''.join(vals) if all(len(x) == 1 for x in vals) or c.func.attr.endswith('strip') else None
+            if isinstance(v, str) and c.func.attr in ('split', 'rsplit') and isinstance(a, ast.Constant) and len(v) != 1:
+                v = None                    # a multi-character separator is one separator string, not a set of blanks
+            ok = c.func.attr in ('split', 'rsplit', 'strip', 'lstrip', 'rstrip') and isinstance(v, str) and v != '' and set(v) <= XML_WS and not c.keywords
+            if ok:
+                covered |= set(v)
+            res.check(ok, 'R-TEXT.collapse-set', f.fq, f"`{short(c, 70)}` names only XML whitespace characters",
+                      fail_detail="without an argument str.split / str.strip work on every Unicode blank (NBSP, EM SPACE, VT, FF, #x1C-#x1F ...)" if a is None
+                      else f"characters {sorted(set(v) - XML_WS) if isinstance(v, str) else unparse(a)}", key=f"R-TEXT.collapse-set|{c.func.attr}|{'bare' if a is None else 'arg'}",
+                      line=c.lineno)
+        elif dotted(c.func) in ('re.sub', 're.split', 're.compile', 're.findall', 're.match', 're.fullmatch'):
+            n += 1
+            v = const_value(c.args[0]) if c.args else None
+            chars = _regex_chars(v) if isinstance(v, str) else None
+            ok = chars is not None and chars <= XML_WS and not any(k.arg == 'flags' for k in c.keywords)
+            if ok:
+                covered |= chars
+            res.check(ok, 'R-TEXT.collapse-set', f.fq, f"`{short(c, 70)}` consumes only XML whitespace characters",
+                      fail_detail="a character category (\\s) or characters outside #x20 #x9 #xA #xD" if chars is None else f"characters {sorted(chars - XML_WS)}",
+                      key='R-TEXT.collapse-set|regex', line=c.lineno)
+    res.check(covered == XML_WS, 'R-TEXT.collapse-set', f.fq, "all four XML whitespace characters are collapsed", fail_detail=f"covered: {sorted(covered)}",
+              key='R-TEXT.collapse-set|covered')
+    res.floor('R-TEXT.collapse-set operations', n, 1)
+    # the collapse is what the token type applies in front of the pattern
+    tok = sm.get_class('XSDSimpleTypeToken', T.M_SIMPLE)
+    uses = [c for fn in (list(tok.methods.values()) + list(tok.setters.values()) if tok else []) for c in ast.walk(fn.node)
+            if isinstance(c, ast.Call) and isinstance(c.func, ast.Name) and c.func.id == 'get_cleaned_token']
+    res.check(bool(uses), 'R-TEXT.collapse-set', 'XSDSimpleTypeToken', "the token type collapses its value with get_cleaned_token", key='R-TEXT.collapse-set|used')
 
 
 # ---------------------------------------------------------------------------------------------- V1
@@ -310,45 +410,49 @@ def bound_comparisons(ctx):
     cv = sm.func('XSDSimpleType', '_check_value', T.M_SIMPLE)
     v = cv.params[1]
     seen = set()
-    for n in ast.walk(cv.node):
-        if not isinstance(n, ast.If):
+    g = cfg_of(cv.node)
+    # every rejection that is taken under `<node>.tag == '<facet>'`: the comparison it is taken under (whatever locals hold its operands, whether the tag
+    # test and the comparison share one `if` or are nested, an if/elif chain or independent ifs)
+    for r in [n for n in g.stmt_nodes() if n.kind == 'stmt' and isinstance(n.ast, ast.Raise)]:
+        gs = [(t, lab) for t, lab in dom.guards_of(g, r) if t.kind == 'test']
+        tags = [(t, lab) for t, lab in gs if isinstance(t.ast, ast.Compare) and isinstance(t.ast.ops[0], ast.Eq) and lab == 'T' and
+                isinstance(dom.expand(g, t.ast.left, t), ast.Attribute) and dom.expand(g, t.ast.left, t).attr == 'tag' and const_value(t.ast.comparators[0]) in BOUND_FACETS]
+        if not tags:
             continue
-        t = n.test
-        parts = t.values if isinstance(t, ast.BoolOp) and isinstance(t.op, ast.And) else [t]
-        fac = None
-        cmp_ = None
-        for p in parts:
-            if isinstance(p, ast.Compare) and isinstance(p.left, ast.Attribute) and p.left.attr == 'tag' and isinstance(p.ops[0], ast.Eq):
-                fac = const_value(p.comparators[0])
-                tagvar = unparse(p.left.value)
-            elif isinstance(p, ast.Compare):
-                cmp_ = p
-        if fac not in BOUND_FACETS:
-            continue
+        fac = const_value(tags[0][0].ast.comparators[0])
+        tagvar = unparse(dom.expand(g, tags[0][0].ast.left, tags[0][0]).value)
         seen.add(fac)
         where = cv.fq
-        if cmp_ is None or not any(isinstance(s, ast.Raise) for s in n.body):
-            res.finding('R-ORD.bounds', where, f"facet {fac}: a violating value is rejected", short(n.test), key=f"R-ORD.bounds|{fac}|shape", line=n.lineno)
-            continue
-        lhs, rhs = unparse(cmp_.left), unparse(cmp_.comparators[0])
         want_l = f"len({v})" if fac in ('minLength', 'maxLength') else v
         want_r = f"int({tagvar}.get_attributes()['value'])"
+        cmps = []
+        for t, lab in gs:
+            if (t, lab) in tags or not isinstance(t.ast, ast.Compare) or len(t.ast.ops) != 1:
+                continue
+            e = dom.expand(g, t.ast, t)
+            if "get_attributes()['value']" in unparse(e):
+                cmps.append((e, lab, t))
+        if len(cmps) != 1:
+            res.finding('R-ORD.bounds', where, f"facet {fac}: a violating value is rejected", f"{len(cmps)} comparison(s) with the facet's value guard `{r.text()[:50]}`",
+                        key=f"R-ORD.bounds|{fac}|shape", line=r.line)
+            continue
+        cmp_, lab, tnode = cmps[0]
+        lhs, rhs = unparse(cmp_.left), unparse(cmp_.comparators[0])
         sides_ok = (lhs, rhs) == (want_l, want_r) or (lhs, rhs) == (want_r, want_l)
         res.check(sides_ok, 'R-ORD.bounds', where, f"facet {fac}: compares the value with the facet's own value=", fail_detail=short(cmp_),
-                  key=f"R-ORD.bounds|{fac}|operands", line=n.lineno)
+                  key=f"R-ORD.bounds|{fac}|operands", line=tnode.line)
         if not sides_ok:
             continue
         rejected = set()
         for rel in ('<', '=', '>'):
-            r = abseval.eval_expr(cmp_, {'__order__': {(want_l, want_r): rel}, '__assume__': {}})
-            if r == ('const', True):
+            rr = abseval.eval_expr(cmp_, {'__order__': {(want_l, want_r): rel}, '__assume__': {}})
+            if rr == ('const', lab == 'T'):
                 rejected.add(rel)
         res.check(rejected == BOUND_FACETS[fac], 'R-ORD.bounds', where,
                   f"facet {fac}: rejects exactly value {'/'.join(sorted(BOUND_FACETS[fac]))} bound",
-                  fail_detail=f"`{short(cmp_)}` rejects value {'/'.join(sorted(rejected)) or 'never'} bound", key=f"R-ORD.bounds|{fac}|table", line=n.lineno)
+                  fail_detail=f"`{short(cmp_)}` [{lab}] rejects value {'/'.join(sorted(rejected)) or 'never'} bound", key=f"R-ORD.bounds|{fac}|table", line=tnode.line)
     res.floor('R-ORD.bounds facets', len(seen), 4)
     # enumeration
-    g = cfg_of(cv.node)
     enum_tests = [n for n in g.stmt_nodes() if n.kind == 'test' and isinstance(n.ast, ast.Compare) and unparse(n.ast.comparators[0]) == 'self._PERMITTED'
                   and unparse(n.ast.left) == v]
     ok = bool(enum_tests) and all(isinstance(n.ast.ops[0], ast.In) and dom.branch_raises(g, n, 'F') for n in enum_tests)      # canonical form of `v not in ..` [T]
